@@ -277,10 +277,8 @@ func (w *gcWorld) publishAll(pb *gcPublisher) {
 			w.r.Fail(w.o.prop+".PANIC", "Publish panicked", "Publish(%v) panicked: %v", ids, pv)
 		}
 		w.r.Logf("pub %d Publish(%v) returned err=%v", pb.id, ids, err)
-		// the caller owns the originals again: edit them
-		for _, m := range batch {
-			m.Metadata.Set("post-publish-edit", "x")
-		}
+		// (message.Message's documentation: once passed to Publish a message is to be considered immutable — the
+		// harness does not touch the originals again)
 	}
 }
 
@@ -362,13 +360,14 @@ func (w *gcWorld) consume(s *gcSub) {
 			r.Fault("consumer-nack")
 			d.nacked = true
 			if !m.Nack() {
-				r.Fail(w.o.prop+".HARNESS", "Nack on a fresh delivery returned false", "sub %d %s", s.id, m.UUID)
+				// (somebody else settled the copy first, e.g. the Pub/Sub while tearing the subscription down)
+				r.Probe("nack-on-fresh-delivery-returned-false")
 			}
 			r.Logf("sub %d nacked %s", s.id, m.UUID)
 		} else {
 			d.acked = true
 			if !m.Ack() {
-				r.Fail(w.o.prop+".HARNESS", "Ack on a fresh delivery returned false", "sub %d %s", s.id, m.UUID)
+				r.Probe("ack-on-fresh-delivery-returned-false")
 			}
 			r.Logf("sub %d acked %s", s.id, m.UUID)
 		}
@@ -529,8 +528,8 @@ func (w *gcWorld) checkDelivery() {
 			if !sameMeta(d.metaAtRecv, rec.snap.Metadata) {
 				sig := "delivered metadata differs from the published one"
 				for k := range d.metaAtRecv {
-					if strings.HasPrefix(k, "mut-by-sub") || k == "post-publish-edit" {
-						sig = "a metadata edit made on another copy (consumer's delivery or publisher's original after Publish) is visible in a delivery"
+					if strings.HasPrefix(k, "mut-by-sub") {
+						sig = "a metadata edit made on another copy (a consumer's delivery) is visible in a delivery"
 					}
 				}
 				r.Fail("C04.R4", sig, "sub %d %s: got %v, published %v", s.id, d.uuid, d.metaAtRecv, rec.snap.Metadata)
